@@ -49,13 +49,13 @@ type zzTree struct {
 type zzSkip struct{}
 
 var (
-	zzFx       *zzFixture
-	zzFailed   []string
-	zzOutMap   map[string]string
-	zzLogLines []string
-	zzDocs     []zzDocSnap
+	zzFx        *zzFixture
+	zzFailed    []string
+	zzOutMap    map[string]string
+	zzLogLines  []string
+	zzDocs      []zzDocSnap
 	zzHarnesses = map[string]func(){}
-	zzOpaque   []interface{}
+	zzOpaque    []interface{}
 )
 
 type zzDocSnap struct {
@@ -92,10 +92,10 @@ func zzPath(name string) string {
 	return p
 }
 
-func zzInt(name string) int                 { return int(zzFx.Ints[name]) }
+func zzInt(name string) int                  { return int(zzFx.Ints[name]) }
 func zzIntRange(name string, lo, hi int) int { return int(zzFx.Ints[name]) }
-func zzBool(name string) bool               { return zzFx.Bools[name] }
-func zzByte(name string) byte               { return byte(zzFx.Bytes[name]) }
+func zzBool(name string) bool                { return zzFx.Bools[name] }
+func zzByte(name string) byte                { return byte(zzFx.Bytes[name]) }
 func zzFloat(name string) float64 {
 	u, _ := strconv.ParseUint(zzFx.Floats[name], 16, 64)
 	return math.Float64frombits(u)
@@ -243,11 +243,11 @@ func zzLog(msg string)            { zzLogLines = append(zzLogLines, msg) }
 func zzOut(key string, v interface{}) { zzOutMap[key] = zzRender(v) }
 func zzOutStr(key, v string)          { zzOutMap[key] = "s:" + strconv.Quote(v) }
 
-func zzDeepEqual(a, b interface{}) bool { return reflect.DeepEqual(a, b) }
-func zzIsNaN(f float64) bool        { return f != f }
-func zzFloatEq(a, b float64) bool   { return a == b }
-func zzStrEq(a, b string) bool      { return a == b }
-func zzMutexFree() bool             { return true }
+func zzDeepEqual(a, b interface{}) bool             { return reflect.DeepEqual(a, b) }
+func zzIsNaN(f float64) bool                        { return f != f }
+func zzFloatEq(a, b float64) bool                   { return a == b }
+func zzStrEq(a, b string) bool                      { return a == b }
+func zzMutexFree() bool                             { return true }
 func zzRegexMatch(re *regexp.Regexp, s string) bool { return re.MatchString(s) }
 
 func zzNumValue(v interface{}) float64 {
@@ -444,13 +444,13 @@ func zzRender(v interface{}) string {
 
 // engine-only observations have trivial native counterparts: the native run
 // observes their consequences through results instead.
-func zzEpoch() int                          { return 0 }
+func zzEpoch() int                            { return 0 }
 func zzFresh(v []interface{}, epoch int) bool { return true }
-func zzTreeMark(f interface{})              {}
-func zzTreeUnchanged() bool                 { return true }
-func zzPoisonClean() bool                   { return true }
-func zzAccessStart()                        {}
-func zzAccessCheck() bool                   { return true }
+func zzTreeMark(f interface{})                {}
+func zzTreeUnchanged() bool                   { return true }
+func zzPoisonClean() bool                     { return true }
+func zzAccessStart()                          {}
+func zzAccessCheck() bool                     { return true }
 func zzParserClean() bool {
 	return reflect.DeepEqual(parser.jsonPathParser, jsonPathParser{})
 }
